@@ -544,6 +544,8 @@ impl<'a> Run<'a> {
 pub trait Observer {
     fn pre(&mut self, _run: &mut Run<'_>, _index: usize, _ev: &Ev) {}
     fn post(&mut self, _run: &mut Run<'_>, _step: &Step) {}
+    /// after the last event (not called when a step panicked)
+    fn end(&mut self, _run: &mut Run<'_>) {}
 }
 
 impl WorldCfg {
@@ -603,6 +605,9 @@ impl WorldCfg {
                 break;
             }
         }
+        if !run.dead {
+            obs.end(&mut run);
+        }
         finish(&mut run)
     }
 }
@@ -621,6 +626,9 @@ pub trait Monitor: Sync {
     fn canon(&self, _run: &Run<'_>, key: String) -> String {
         key
     }
+    /// called once after the history (and after the state key was taken): may keep driving
+    /// the run, e.g. with a deterministic continuation, and report what it finds
+    fn finale(&self, _st: &mut Self::St, _run: &mut Run<'_>, _out: &mut Vec<Violation>) {}
 }
 
 /// A world + seed history + alphabet + monitor as an E1 transition system.
@@ -637,20 +645,30 @@ pub struct WorldSys<'m, M: Monitor> {
     pub macros: Vec<Vec<Ev>>,
 }
 
-struct Bridge<'a, M: Monitor> {
-    m: &'a M,
+struct Bridge<'a, 'm, M: Monitor> {
+    sys: &'a WorldSys<'m, M>,
     st: M::St,
     /// steps with index >= judged are under judgement
     judged: usize,
     out: Vec<Violation>,
+    /// (key, observable, next events) taken after the history, before the finale
+    result: Option<(String, String, Vec<Ev>)>,
 }
-impl<M: Monitor> Observer for Bridge<'_, M> {
+impl<M: Monitor> Observer for Bridge<'_, '_, M> {
     fn pre(&mut self, run: &mut Run<'_>, index: usize, ev: &Ev) {
-        self.m.pre(&mut self.st, run, ev, index >= self.judged);
+        self.sys.monitor.pre(&mut self.st, run, ev, index >= self.judged);
     }
     fn post(&mut self, run: &mut Run<'_>, step: &Step) {
         let judged = step.index >= self.judged;
-        self.m.post(&mut self.st, run, step, if judged { Some(&mut self.out) } else { None });
+        self.sys.monitor.post(&mut self.st, run, step, if judged { Some(&mut self.out) } else { None });
+    }
+    fn end(&mut self, run: &mut Run<'_>) {
+        let next: Vec<Ev> = self.sys.alphabet.iter().filter(|e| !self.sys.obedient || run.enabled_obedient(e)).cloned().collect();
+        let key = format!("{}#{}", self.sys.monitor.canon(run, run.key()), self.sys.monitor.key(&self.st));
+        self.result = Some((key, run.observable(), next));
+        if self.judged != usize::MAX {
+            self.sys.monitor.finale(&mut self.st, run, &mut self.out);
+        }
     }
 }
 
@@ -681,20 +699,12 @@ impl<M: Monitor> WorldSys<'_, M> {
                 o => full.push(o.clone()),
             }
         }
-        let mut b = Bridge { m: self.monitor, st: Default::default(), judged, out: vec![] };
-        let (key, observable, next, dead) = self.cfg.exec(&full, &mut b, |run| {
-            if run.dead {
-                return (String::new(), "panicked".to_string(), vec![], true);
-            }
-            let next: Vec<Ev> = self
-                .alphabet
-                .iter()
-                .filter(|e| !self.obedient || run.enabled_obedient(e))
-                .cloned()
-                .collect();
-            (self.monitor.canon(run, run.key()), run.observable(), next, false)
-        });
-        let key = if dead { key } else { format!("{key}#{}", self.monitor.key(&b.st)) };
+        let mut b = Bridge { sys: self, st: Default::default(), judged, out: vec![], result: None };
+        self.cfg.exec(&full, &mut b, |_| ());
+        let (key, observable, next, dead) = match b.result.take() {
+            Some((k, o, n)) => (k, o, n, false),
+            None => (String::new(), "panicked".to_string(), vec![], true),
+        };
         let replay = self.replay_json(hist);
         let mut violations = b.out;
         for v in &mut violations {
